@@ -19,7 +19,10 @@ MACROS = {
     # the longest run of hex digits (up to 6) belongs to the escape; without
     # the lookahead '\\AA' could also be read as '\\A' + 'A', which makes a failing
     # match on many escapes take exponential time
-    'unicode': r'\\(?:[0-9A-Fa-f]{6}|[0-9A-Fa-f]{1,5}(?![0-9A-Fa-f]))(?:{nl}|{s})?',
+    # (likewise one white space after the escape: if there is one it belongs
+    # to the escape, it is never read as a character of its own)
+    'unicode': r'\\(?:[0-9A-Fa-f]{6}|[0-9A-Fa-f]{1,5}(?![0-9A-Fa-f]))'
+    r'(?:{nl}|{s}|(?![\t\r\n\f\x20]))',
     # 'escape': r'{unicode}|\\[ -~\200-\777]',
     # (upper case hex digits start a unicode escape, too)
     'escape': r'{unicode}|\\[^\n\r\f0-9a-fA-F]',
